@@ -1,3 +1,4 @@
+import json, os
 from .. import common, mir
 from ..rules import c15, c04
 
@@ -7,6 +8,7 @@ def run(tier, replay=None):
     cfgs = ["dev-std", "rel-std"] if tier == "quick" else mir.CONFIGS
     mir.ensure_facts(cfgs)
     rep.configs = cfgs
+    pins = json.load(open(os.path.join(mir.VERIF, "sa", "rules", "pins.json")))
     for cfg in cfgs:
         crate = mir.load(cfg)
         tab = c15.run_tables(rep, crate, cfg)
@@ -16,6 +18,8 @@ def run(tier, replay=None):
         # 'the generated tuple equals RFC 6330's Tuple[K', X]': the template rules shared with C04
         c04.run_rand(rep, crate, cfg)
         c04.run_tuple(rep, crate, cfg)
+        # the tabulated RFC data itself (J(K'), the Rand tables, the degree table): pinned fingerprints, shared with C04-R7
+        c04.run_constants(rep, crate, cfg, pins)
     rep.trusted = ["rustc front end / const evaluator / MIR construction (nightly)",
                    "sa/absint.py transfer functions and sa/models.py library models",
                    "table relations used as facts are exactly those checked row by row by C15-R1 in the same run"]
